@@ -454,6 +454,20 @@ class C17(BridgeProp):
                 + [f"send{k + 1}" for k in range(np_)] * 2
             word = [rng.choice(alpha) for _ in range(rng.randrange(3, 11))]
             out.append({"ports": ps, "steps": life_steps(rng, ps, word)})
+        # "a stopped bridge can be started again" - also by the program's next asyncio.run(): the same bridge object under another
+        # event loop, the old one closed (as run() does) or still open; after a clean stop, after a failed start, twice in a row
+        for np_ in (1, 2, 4):
+            ps = PORTS[:np_]
+            dgm = lambda: {"do": "dgram", "p": rng.choice(ps), "d": rdev(rng), "cbraise": False}      # noqa: E731
+            for close in (True, False):
+                nl = {"do": "newloop", "close": close}
+                for a, b in (("start", "stop"), ("enter", "leave"), ("enter", "leave-exc")):
+                    out.append({"ports": ps, "steps": [{"do": a}, dgm(), {"do": b}, {"do": "cycle"}, nl, {"do": a}, dgm(), {"do": b}, {"do": "cycle"}]})
+                out.append({"ports": ps, "steps": [{"do": "start"}, {"do": "stop"}, {"do": "cycle"}, nl, {"do": "start"}, dgm(), {"do": "stop"}, {"do": "cycle"},
+                                                    dict(nl), {"do": "stop"}, {"do": "start"}, dgm(), dgm(), {"do": "stop"}, {"do": "cycle"}]})
+                out.append({"ports": ps, "steps": [{"do": "occupy", "p": ps[-1]}, {"do": "start"}, {"do": "free", "p": ps[-1]}, {"do": "cycle"}, nl,
+                                                    {"do": "start"}, dgm(), {"do": "stop"}, {"do": "cycle"}]})
+                out.append({"ports": ps, "steps": [nl, {"do": "stop"}, {"do": "start"}, dgm(), {"do": "stop"}, {"do": "cycle"}]})
         # stop() racing with datagrams that are already on their way: nothing may reach the callback once stop has returned
         for _ in range(ctx.pick(200, 3000)):
             np_ = rng.randrange(1, 4)
